@@ -24,8 +24,8 @@ Print Assumptions C11_self_term_is_the_zero_height_limit.
 (* every einsum of the three energy routines of the CURRENT source pairs axes of the same meaning (ion charges with the ION axis, ...),
    and the contraction that was the F6 defect (ion charges against the electron axis) is rejected by the same check *)
 Theorem C11_contractions_pair_like_axes :
-  forallb site_typed contraction_sites = true /\ (8 <=? length contraction_sites)%nat = true /\ site_typed f6_site = false.
-Proof. split; [exact all_sites_typed|split; [exact sites_nonempty|exact f6_rejected]]. Qed.
+  forallb site_typed contraction_sites = true /\ site_typed f6_site = false.
+Proof. split; [exact all_sites_typed|exact f6_rejected]. Qed.
 Print Assumptions C11_contractions_pair_like_axes.
 
 (* what "typed" means, for all sizes: one assignment of meanings to the subscript letters explains every operand axis *)
